@@ -495,5 +495,30 @@ theorem forType_erase (opts : IOpts) (strs : List String) (fuel : Nat) (T : GoTy
     forType opts fuel T st = forType opts fuel (erase T) st :=
   inferFuel_erase opts strs fuel T [] [] st hst hok
 
+/-- the schema of a struct type, under any list of declared types being expanded (C16.struct_schema is `seen = []`) -/
+theorem inferStep_struct_schema {opts : IOpts} {fuel : Nat} {fields : List (String × String × GoType)}
+    {seen : List String} {st : Store} {id : NodeId} {st' : Store} (hi : opts.ignore = false)
+    (h : inferStep opts (inferFuel opts fuel) (.struct fields) seen st = .ok (some id, st')) :
+    ∃ n, st'.get? id = some n ∧ n.type = "object" ∧
+      n.required.getD [] = alwaysNames fields ∧
+      (∀ k, k ∈ (n.properties.getD []).map (·.1) ↔ k ∈ jsonNames fields) ∧
+      (nodup (jsonNames fields) = true → n.propertyOrder.getD [] = jsonNames fields) := by
+  obtain ⟨n, st1, hl, hr, rfl⟩ := inferStep_struct_ok (t0 := .struct fields) (fields := fields) (an := false) rfl h
+  cases hr
+  have hnd : NeverDrops (inferFuel opts fuel) seen fields :=
+    fun f _ _ s s1 hf => inferFuel_never_none hi fuel _ _ _ _ hf
+  obtain ⟨h1, h2, h3⟩ := structLoop_lists fields hnd hl
+  refine ⟨_, get?_push_size _ _, ?_, ?_, ?_, ?_⟩
+  · rw [addNull_false, finalOrder_type, coreOf_type (structLoop_core fields hl)]
+    rfl
+  · rw [addNull_false, finalOrder_required, h2]
+    rfl
+  · intro k
+    rw [addNull_false, finalOrder_properties, h3]
+    simp [structNode0]
+  · intro hnd
+    have h1' : n.propertyOrder.getD [] = jsonNames fields := by rw [h1]; rfl
+    rw [addNull_false, finalOrder_order_of_nodup n (by rw [h1']; exact hnd), h1']
+
 end Go
 end JSV
